@@ -332,7 +332,7 @@ func gen(t *rapid.T) Case {
 		for i := 0; i < n; i++ {
 			c.Good = append(c.Good, ymodel.Source{Name: "fam@" + dates[i] + ".yang", Text: fmt.Sprintf("module fam {\n namespace \"urn:fam\";\n prefix f;\n revision %s;\n typedef t { type %s; units \"r%d\"; }\n grouping g { leaf from-r%d { type t; } }\n identity id;\n identity sub%d { base id; }\n container c%d { leaf own { type t; } }\n container c { }\n}\n", dates[i], kinds[i], i, i, i, i)})
 		}
-		c.Good = append(c.Good, ymodel.Source{Name: "famuser.yang", Text: "module famuser {\n namespace \"urn:famuser\";\n prefix u;\n import fam { prefix f; }\n leaf l { type f:t; }\n container k { uses f:g; }\n leaf r { type identityref { base f:id; } }\n identity mine { base f:id; }\n augment \"/f:c\" { leaf added { type string; } }\n}\n"})
+		c.Good = append(c.Good, ymodel.Source{Name: "famuser.yang", Text: "module famuser {\n namespace \"urn:famuser\";\n prefix u;\n import fam { prefix f; }\n leaf l { type f:t; }\n container k { uses f:g; }\n leaf r { type identityref { base f:id; } }\n typedef tid { type identityref { base f:id; } }\n leaf viatd { type tid; }\n typedef tt { type f:t; }\n leaf viatt { type tt; }\n identity mine { base f:id; }\n augment \"/f:c\" { leaf added { type string; } }\n}\n"})
 		if rapid.Bool().Draw(t, "dated-user") {
 			d := dates[rapid.IntRange(0, n-1).Draw(t, "dated-user-revision")]
 			c.Good = append(c.Good, ymodel.Source{Name: "famuser2.yang", Text: fmt.Sprintf("module famuser2 {\n namespace \"urn:famuser2\";\n prefix u;\n import fam { prefix f; revision-date %s; }\n leaf l { type f:t; }\n container k { uses f:g; }\n augment \"/f:c\" { leaf added2 { type string; } }\n}\n", d)})
